@@ -129,13 +129,19 @@ structure JHeader where
   deriving DecidableEq, Repr, Inhabited
 
 /-- One signature of a JWS: header + the symbolic term `sig(signer, signedAlg, signedBytes)`;
-    `signer = none` is a forged / random signature. -/
+    `signer = none` is a forged / random signature.
+    go-jose shows three views of a signature's header: `Protected` (the `protected` member, covered by the
+    signature), `Unprotected` (the per-signature `header` member of a JSON serialisation, NOT covered) and the
+    merged `Header` the library and RFC 7515 call "the JOSE header" (`Hand.mergeHeader`).  In the compact
+    serialisation there is no unprotected header and all of `Header` is protected (the defaults below). -/
 structure JSig where
   Header : JHeader
   signer : Option Nat
   signedAlg : String      -- algorithm the signer really used
   signedBytes : Nat       -- payload bytes the signer really signed
   signedHdr : JHeader     -- protected header the signer really signed
+  Protected : JHeader := Header
+  Unprotected : JHeader := { Algorithm := "", KeyID := "" }
   deriving DecidableEq, Repr, Inhabited
 
 structure JWS where
@@ -256,10 +262,19 @@ def algFits (kty : KeyType) (alg : String) : Bool :=
   else if alg == "EdDSA" then kty == .okp
   else false
 
+/-- go-jose `Signature.mergedHeaders`: a member of the protected header wins, the unprotected header fills in
+    what the protected one does not have -/
+def mergeHeader (prot unprot : JHeader) : JHeader :=
+  { Algorithm := if prot.Algorithm != "" then prot.Algorithm else unprot.Algorithm,
+    KeyID := if prot.KeyID != "" then prot.KeyID else unprot.KeyID }
+
+/-- the three header views of a parsed signature fit together as go-jose builds them -/
+def headerMerged (s : JSig) : Bool := s.Header == mergeHeader s.Protected s.Unprotected
+
 /-- symbolic `jws.Verify(key)`: the signature term was made by this key pair, over exactly this
-    payload and protected header, with an algorithm that fits the key. -/
+    payload and PROTECTED header, with the algorithm the (merged) header names, and that algorithm fits the key. -/
 def sigVerifies (j : JWS) (s : JSig) (k : JWK) : Bool :=
-  s.signer == some k.keyNo && s.signedBytes == j.payload.bytes && s.signedHdr == s.Header
+  s.signer == some k.keyNo && s.signedBytes == j.payload.bytes && s.signedHdr == s.Protected
     && s.signedAlg == s.Header.Algorithm && algFits k.kty s.Header.Algorithm
 
 end Hand
